@@ -665,4 +665,13 @@ def r11_options_forwarded_under_their_names(chk):
     chk.floor('C20.R11', 12, 'option reads in compile() and buildIndex()')
 
 
-RULES = [r1_exit_codes, r2_report, r3_options, r4_mibcopy, r5_statuses_backed_by_writes, r6_format_wiring, r7_argument_agreement, r8_failed_leaves_no_file, r9_wellformedness, t1_typestate, r10_no_stray_files, r11_options_forwarded_under_their_names]
+
+def r12_revision_time_of_two_digit_years(chk):
+    """shared with C03.R9: mibcopy keeps the copy with the latest revision - as genTime reads it"""
+    from rules.C03 import r9_revision_time
+    common.reuse(chk, r9_revision_time, ('C03.R9',), 'C20.R12',
+                 'genTime completes a two-digit year with the century before parsing (C03.R9): the revision mibcopy '
+                 'compares is the one the MIB states, so an old YYMMDDHHMM revision cannot outrank a newer one', floor=1)
+
+
+RULES = [r1_exit_codes, r2_report, r3_options, r4_mibcopy, r5_statuses_backed_by_writes, r6_format_wiring, r7_argument_agreement, r8_failed_leaves_no_file, r9_wellformedness, t1_typestate, r10_no_stray_files, r11_options_forwarded_under_their_names, r12_revision_time_of_two_digit_years]
